@@ -189,7 +189,8 @@ def main() -> int:
                     problems.append(f"lib_deps={got_libs} (want {expected_libs})")
                 extra = set(sec.keys()) - set(want) - {"lib_deps"}
                 if extra:
-                    problems.append(f"unexpected keys {sorted(extra)}")
+                    # further settings in the environment are not excluded by the statement: counted, not judged
+                    rep.count("ini_extra_keys_seen")
             if problems:
                 rep.violation("platformio.ini does not read back as given: " + "; ".join(problems),
                               {"platformio.ini.txt": (proj / "platformio.ini").read_text(), "detail.json": json.dumps(case, default=str)},
